@@ -342,7 +342,7 @@ class OnePort(Network, ImmittanceMixin):
         elif Isc.is_ac:
             Y1 = Y.subs(j * Isc.ac_keys()[0])
             I1 = Isc.select(Isc.ac_keys()[0])
-        elif Isc.is_dc:
+        elif Isc.is_dc and Isc != 0:
             Y1 = Y.subs(0)
             I1 = Isc(0)
         else:
@@ -406,7 +406,7 @@ class OnePort(Network, ImmittanceMixin):
         elif Voc.is_ac:
             Z1 = Z.subs(j * Voc.ac_keys()[0])
             V1 = Voc.select(Voc.ac_keys()[0])
-        elif Voc.is_dc:
+        elif Voc.is_dc and Voc != 0:
             Z1 = Z.subs(0)
             V1 = Voc(0)
         else:
